@@ -88,7 +88,8 @@ def run(ctx):
                 ctx.violation({"dir": direction, "op": "abort", "outcome": e["outcome"], "signal": e["signal"]}, {"event": e})
 
     ev, _ = fsc.run_fs(ctx, "c14", lambda e: e["loc"] and e["op"] not in fsc.TYPED_READS and not e["op"].startswith("write_"),
-                       None, profile=None, twins=True, post=post, also_checked=True)
+                       None, profile=None, twins=True, post=post, also_checked=True,
+                       second_gen=False)     # deeper states are C12/C13's; here: all 40 pairs x both builds
     ctx.extra["localized_fs_calls"] = stats["localized"]
     ctx.extra["explicit_path_twins"] = stats["twins"]
     for e in ev:
